@@ -230,6 +230,12 @@ func init() {
 			progs = append(progs, "def b { x = 1 y = x ( z = x + 1 ) w = y ( 2 ) }", "def b { v = x ( 3 ) ( 4 ) }", "var x = 1 def b { y = x ( x = 2 ) }",
 				// literals directly followed by identifiers that start with an underscore
 				"def b { x = 1 _y = 2 z = 0x1F _ = 3 w = \"s\" _y = 2.5 _z = 1e3 _q = 4 }")
+			// more than a thousand redundantly parenthesised expressions in one source (none nested deeper than 2)
+			{
+				canon := strings.Repeat("print 1 + 2 ", 1100) + "def b { x = 3 }"
+				c.Do(subC20, &c20Case{Canon: "\x00paren:" + canon, Variant: strings.Repeat("print ( 1 + 2 ) ", 1100) + "def b { x = ( 3 ) }"})
+				c.Do(subC20, &c20Case{Canon: "\x00paren:" + canon, Variant: strings.Repeat("print ( ( 1 ) + ( 2 ) ) ", 1100) + "def b { x = ( ( 3 ) ) }"})
+			}
 			// huge layout: 70000 blanks / tabs / CRs between two tokens, a 70000-byte comment (a layout is never "too long")
 			{
 				canon := "var a = 1 print a + 2 def b { x = a }"
